@@ -1,7 +1,7 @@
 (* Proofs/PrioClass.v — the class NewZ of Proofs.MergePrio is decidable (a checker, proved sound), and executable comparison of
    priority images; used by the correspondence of the specification Spec.UpdateP.upd_p with Builder.build. *)
 From AY Require Import Model.Merge Model.Eq Proofs.NodeInd Proofs.FlagsLemmas Spec.Update Spec.UpdateP Proofs.MergePlain
-  Proofs.MergeNotNew Proofs.MergeGen Proofs.MergeMode Proofs.MergePrio.
+  Proofs.MergeNotNew Proofs.MergeGen Proofs.MergeMode Proofs.MergePrio Model.Loader Proofs.LoaderLemmas Proofs.PrioPath Proofs.PrioLoad.
 
 Definition nz_b (f : flags) : bool :=
   match f_del f, f_new f, f_inew f with None, None, None => true | _, _, _ => false end.
@@ -64,4 +64,43 @@ Proof.
   destruct (forallb newz_b (s0 :: sts) && forallb is_dictk (s0 :: sts))%bool eqn:E; [|discriminate].
   apply andb_true_iff in E. destruct E as [E1 E2]. intro H. inversion H; subst.
   apply flatten_prio; [|exact E2]. rewrite forallb_forall in E1. apply Forall_forall. intros x Hx. apply newz_b_ok, E1, Hx.
+Qed.
+
+(* ---------- the same from the document down ---------- *)
+Definition tz_b (t : tagkw) : bool := match t_del t, t_new t with None, None => true | _, _ => false end.
+
+Fixpoint yz_b (y : ynode) : bool :=
+  match y with
+  | YS t _ => tz_b t
+  | YM t l => (tz_b t && nodup_b (map fst l) &&
+               (fix go (l : list (key * ynode)) := match l with [] => true | (_, x) :: r => (yz_b x && go r)%bool end) l)%bool
+  | YQ _ _ => false
+  end.
+
+Lemma tz_b_ok t : tz_b t = true -> tz t.
+Proof. unfold tz_b, tz. destruct (t_del t), (t_new t); try discriminate. auto. Qed.
+
+Lemma yz_b_ok : forall y, yz_b y = true -> yz y.
+Proof.
+  induction y as [t v|t l IH|t l IH] using ynode_ind'; intro H.
+  - constructor. now apply tz_b_ok.
+  - cbn [yz_b] in H. apply andb_true_iff in H. destruct H as [H H3]. apply andb_true_iff in H. destruct H as [H1 H2].
+    constructor; [now apply tz_b_ok| |now apply nodup_b_ok].
+    clear H1 H2. induction IH as [|[k x] r Hx Hr IHr]; [constructor|].
+    apply andb_true_iff in H3. destruct H3 as [A B]. constructor; [apply Hx; exact A|apply IHr; exact B].
+  - discriminate.
+Qed.
+
+Definition predict_docs (ys : list ynode) : option pp :=
+  match ys with
+  | y0 :: r => if (forallb yz_b ys && forallb is_YM ys)%bool then Some (fold_left upd_p (map (yprio None) r) (yprio None y0)) else None
+  | [] => None
+  end.
+
+Theorem predict_docs_ok e c ys d : predict_docs ys = Some d -> exists n, flatten e (map (load_doc c) ys) = Ok n /\ perase n = d.
+Proof.
+  destruct ys as [|y0 r]; [discriminate|]. unfold predict_docs.
+  destruct (forallb yz_b (y0 :: r) && forallb is_YM (y0 :: r))%bool eqn:E; [|discriminate].
+  apply andb_true_iff in E. destruct E as [E1 E2]. intro H. inversion H; subst.
+  apply flatten_prio_docs; [|exact E2]. rewrite forallb_forall in E1. apply Forall_forall. intros x Hx. apply yz_b_ok, E1, Hx.
 Qed.
